@@ -125,6 +125,38 @@ theorem bolt_modified_roundtrip (c : Codec) (b : Bytes) (f : Frame) (n : Nat) (h
     exact ⟨out, ho, by rw [hd, m_kind, m_fx]⟩
   | false => exact Or.inr ⟨rfl, bolt_slow_refuses m hs hrep⟩
 
+/-- **bolt_local_frames_roundtrip**: the frames MOSN builds itself — heartbeat `Trigger`, heartbeat `Reply`, `Hijack` reply with
+any status code and any id the stream layer sets — have no raw frame, are encoded by the slow path, and what is written
+decodes (through either codec) to exactly their fixed fields with empty class / header block / body. -/
+theorem bolt_local_frames_roundtrip (c : Codec) (v2 : Bool) (id status : Nat) :
+    ∀ m ∈ [trigger v2 id, reply v2 id, setId (hijack v2 status) id],
+      ∃ out, encode m = some out ∧
+        decode c out = .frame { m with raw := some out } out.length := by
+  intro m hm
+  simp only [List.mem_cons, List.mem_nil_iff, or_false] at hm
+  have key : ∀ m : Frame, slowPath m → (∃ ow, metaWF m.kind m.fx ow) → Ref.representable m = true →
+      m.classLen = 0 → m.headerLen = 0 → m.contentLen = 0 → m.cls = [] → m.kvs = [] → m.content = [] →
+      m.hdrChanged = false → m.contentChanged = false →
+      ∃ out, encode m = some out ∧ decode c out = .frame { m with raw := some out } out.length := by
+    intro m hs ⟨ow, hw⟩ hr h1 h2 h3 h4 h5 h6 h7 h8
+    obtain ⟨out, ho, hd⟩ := bolt_slow_roundtrip c m ow hs hw hr
+    refine ⟨out, ho, ?_⟩
+    rw [hd]
+    cases m
+    simp_all [BoltHeader.encodeLen]
+  have h32 : id % 2 ^ 32 < 4294967296 := Nat.mod_lt _ (by decide)
+  have h16 : status % 65536 < 65536 := Nat.mod_lt _ (by decide)
+  rcases hm with rfl | rfl | rfl
+  · refine key _ (Or.inl rfl) ⟨false, ?_⟩ (by cases v2 <;> rfl) rfl rfl rfl rfl rfl rfl rfl rfl
+    cases v2 <;> simp [trigger, localFrame, metaWF, owOK, Gen.C01Bolt.ProtocolCode, Gen.C01BoltV2.ProtocolCode,
+      Gen.C01Bolt.CmdTypeRequest, Gen.C01Bolt.CmdCodeHeartbeat] <;> omega
+  · refine key _ (Or.inl rfl) ⟨false, ?_⟩ (by cases v2 <;> rfl) rfl rfl rfl rfl rfl rfl rfl rfl
+    cases v2 <;> simp [reply, localFrame, metaWF, owOK, Gen.C01Bolt.ProtocolCode, Gen.C01BoltV2.ProtocolCode,
+      Gen.C01Bolt.CmdTypeResponse, Gen.C01Bolt.CmdCodeHeartbeat] <;> omega
+  · refine key _ (Or.inl rfl) ⟨false, ?_⟩ (by cases v2 <;> rfl) rfl rfl rfl rfl rfl rfl rfl rfl
+    cases v2 <;> simp [hijack, setId, localFrame, metaWF, owOK, Gen.C01Bolt.ProtocolCode, Gen.C01BoltV2.ProtocolCode,
+      Gen.C01Bolt.CmdTypeResponse, Gen.C01Bolt.CmdCodeRpcResponse] <;> omega
+
 /-- the refusal test of the model is the regenerated `lengthsFit` of `bolt/encoder.go` -/
 theorem bolt_representable_is_lengthsFit (m : Frame) :
     Ref.representable m = Gen.C01Bolt.lengthsFit m.cls.length (BoltHeader.encodeLen m.kvs) m.content.length := by
